@@ -6,6 +6,7 @@ from common import case_line, parse_result
 from gen import rand_input, rand_bounds, DELIMS
 
 LEVEL = "proof"
+COUNTS = ["f"]        # modes of cases.count_thresholds (with the multi-count / oversized-record histories of cases.history_cases)
 BIG_IO = lambda a: "-b" not in a        # which command lines of cases.rand_cli the large-input stream keeps
 
 
@@ -19,7 +20,7 @@ def _run_once(chk):
     n = 15000 if chk.tier == "quick" else 150000
     A, B, AB = [], [], []
     for i in range(n):
-        mode = ("str", "fast", "auto", "stream", "chars", "json")[i % 6]
+        mode = ("str", "fast", "auto", "stream", "chars", "json", "regex")[i % 7]
         if mode in ("str", "json"):
             c = rand_field_case(rng, eng="str", allow=("g", "p", "t", "s", "j", "r", "z", "fb", "m") + (("json",) if mode == "json" else ()))
             if mode == "json":
@@ -30,6 +31,22 @@ def _run_once(chk):
                 normalise_field_case(c)
         elif mode in ("fast", "auto"):
             c = rand_field_case(rng, eng=mode, allow=("t", "s", "j", "z", "fb"), delims=[b"-", b","])
+        elif mode == "regex":
+            # -e: the record is rewritten (-p -r R, R possibly EMPTY: a record made of delimiters only becomes the empty line AFTER the emptiness
+            # test) and split by another code path; the scratch vectors are the same ones
+            bs, bt = rand_bounds(rng, fmt_p=0.2)
+            c = {"kind": "cut", "eng": rng.choice(["str", "auto"]), "d": b"\t", "re": rng.choice(["-", "[-,]", "-+", ",|-"]), "b": bt, "z": rng.random() < 0.2}
+            for k_ in ("g", "s", "m"):
+                if rng.random() < 0.25:
+                    c[k_] = True
+            if rng.random() < 0.3:
+                c["t"] = rng.choice(["l", "r", "b"])
+            if rng.random() < 0.6:
+                c["r"] = rng.choice([b"", b"", b"/", b"::", b"-"])
+                c["p"] = rng.random() < 0.7
+            if rng.random() < 0.4:
+                c["fb"] = b"G"
+            normalise_field_case(c)
         elif mode == "stream":
             c = rand_field_case(rng, eng="stream", allow=("j", "z", "fb"), delims=[b"-"], fmt_p=0.3)
             c["b"] = rng.choice(["1", "2", "1,3", "2:3", "2:", "{1}x{2}", "1,2=F", "3=F", "1:2,4"])
@@ -47,6 +64,11 @@ def _run_once(chk):
                 return "".join(rng.choice(["a", "é", "€", "😎", " "]) for _ in range(rng.randint(0, 4))).encode()
             a = b"".join(rec() + eol for _ in range(rng.randint(1, 3)))
             b = eol.join(rec() for _ in range(rng.randint(0, 2)))
+        elif mode == "regex":
+            def rrec():
+                return b"".join(rng.choice([b"a", b"b", b"-", b"-", b"--", b",", b""]) for _ in range(rng.randint(0, 5)))
+            a = b"".join(rrec() + eol for _ in range(rng.randint(1, 3)))
+            b = eol.join(rrec() for _ in range(rng.randint(0, 2)))
         else:
             a = rand_input(rng, d, z, nrec=rng.randint(1, 3), rich=False)
             if not a.endswith(eol):
